@@ -12,7 +12,7 @@ WT="/tmp/mt-$NAME"; OUT="/tmp/mt-$NAME-out"
 git -C /repo worktree remove --force "$WT" 2>/dev/null; rm -rf "$WT" "$OUT"
 git -C /repo worktree add -q "$WT" HEAD || exit 2
 SUF="$(echo "$WT" | cksum | cut -d' ' -f1)"
-cleanup() { git -C /repo worktree remove --force "$WT" 2>/dev/null; rm -rf "$WT" "$OUT" "/verif/work/alt-$SUF.mod" "/verif/bin/xpv-$SUF" "/verif/bin/xpv-race-$SUF" "/verif/work/build-$SUF.log" "/verif/work/build-race-$SUF.log" 2>/dev/null; }
+cleanup() { git -C /repo worktree remove --force "$WT" 2>/dev/null; rm -rf "$WT" "$OUT" "/verif/work/alt-$SUF.mod" "/verif/bin/xpv-$SUF" "/verif/bin/xpv-race-$SUF" "/verif/work/build-$SUF.log" "/verif/work/build-race-$SUF.log" /tmp/mt-$NAME.*.log 2>/dev/null; }
 trap cleanup EXIT
 RACEFLAG=""
 [ "$DEMO" != "-" ] && grep -qi "race" "$DEMO" && RACEFLAG="-race"
